@@ -78,7 +78,7 @@ def open_text_io_handle_for_reading(
 
         if looks_gzipped(fh):
             logger.debug(f'Looks like a gzipped data, decompressing on the fly')
-            return gzip.open(handle, mode='rt', newline='', encoding=encoding)
+            return gzip.open(handle, mode='rt', encoding=encoding)
         else:
             logger.debug(f'Looks like decompressed data')
             return io.TextIOWrapper(handle, encoding=encoding)
